@@ -2,7 +2,12 @@ package command
 
 var zzRegistry = map[string]func(int){
 	"ZZ_CmdSmoke": ZZ_CmdSmoke,
+	"ZZ_C02":      ZZ_C02,
+	"ZZ_C05":      ZZ_C05,
+	"ZZ_C06":      ZZ_C06,
+	"ZZ_C07":      ZZ_C07,
 	"ZZ_C09":      ZZ_C09,
+	"ZZ_C11":      ZZ_C11,
 	"ZZ_C10":      ZZ_C10,
 	"ZZ_C13":      ZZ_C13,
 	"ZZ_C14":      ZZ_C14,
